@@ -343,6 +343,21 @@ def run_document(case, st):
                 od = canopen.import_od(p)
                 if od[0x2000].default != 0x18C or od.node_id != 12 or od.bitrate != 125000:
                     st.violation("C08:file-import", dict(case, suffix=suf), (0x18C, 12, 125000), (od[0x2000].default, od.node_id, od.bitrate))
+                # history: the application changes the dictionary it got, then imports the same (unchanged) file again,
+                # with the same and with another node id: every import describes the file
+                od[0x2000].default = 1
+                od.bitrate = 1
+                od.comments = "edited"
+                del od[0x2000]
+                for nid, want in ((None, 0x18C), (12, 0x18C), (3, 0x183), (None, 0x18C)):
+                    st.evaluations += 1
+                    od2 = canopen.import_od(p, nid)
+                    if od2 is od or 0x2000 not in od2 or od2[0x2000].default != want or od2.bitrate != 125000 or od2.comments == "edited":
+                        st.violation("C08:file-import:second-import-of-the-same-file", dict(case, suffix=suf, node_id=nid),
+                                     (hex(want), 125000), "same object" if od2 is od else
+                                     (0x2000 in od2 and od2[0x2000].default, od2.bitrate, od2.comments))
+                        break
+                    od2[0x2000].default = 2
             except Exception as e:  # noqa: BLE001
                 st.violation(f"C08:file-import-raises:{type(e).__name__}", dict(case, suffix=suf), "imported", repr(e)[:100])
     finally:
